@@ -17,10 +17,10 @@ type rulePkg struct {
 	w *World
 
 	build, toCmd, addFilter, addInter, addSyscall, addKeys, addFileWatch, toARD, fromARD, toWire, fromWire *ssa.Function
-	getUID, getGID, getExit, getMsgType, getPerm, getFiletype, parseNum, getArch                            *ssa.Function
-	fields                                                                                                  map[string]uint64 // fieldsTable: name → code
-	fieldName                                                                                               map[uint64]string
-	ok                                                                                                      bool
+	getUID, getGID, getExit, getMsgType, getPerm, getFiletype, parseNum, getArch                           *ssa.Function
+	fields                                                                                                 map[string]uint64 // fieldsTable: name → code
+	fieldName                                                                                              map[uint64]string
+	ok                                                                                                     bool
 }
 
 func loadRulePkg(r *Run, w *World) *rulePkg {
